@@ -613,6 +613,11 @@ void DNS::update_records(byte_array& data,
             if (contains_dname(type)) {
                 update_dname(name_ptr, data_end, threshold, offset);
             }
+            else if (type == SOA) {
+                // The primary name server followed by the responsible mailbox
+                name_ptr = update_dname(name_ptr, data_end, threshold, offset);
+                update_dname(name_ptr, data_end, threshold, offset);
+            }
             ptr += size;
         }
     }
